@@ -20,7 +20,10 @@ func register(id string, run func(*Run), replay func(Case) *Failure) {
 
 func init() {
 	register("C01", runC01, checkC01)
+	register("C05", runC05, checkC05)
+	register("C06", runC06, checkC06)
 	register("C07", runC07, checkC07)
+	register("C08", runC08, checkC08)
 	register("C09", runC09, checkC09)
 	register("C10", runC10, checkC10)
 	register("C11", runC11, checkC11)
